@@ -5,11 +5,24 @@ table = subprocess.run(['/verif/bin/seedtable.py'], capture_output=True, text=Tr
 n = len(glob.glob('/verif/seeded/*/patch.diff'))
 missed = sum(1 for f in glob.glob('/verif/seeded/*/meta.json') if json.load(open(f)).get('initially_missed'))
 oos = sum(1 for f in glob.glob('/verif/seeded/*/meta.json') if json.load(open(f)).get('out_of_statement'))
+def _round(f):
+    return str(json.load(open(f)).get('round', ''))[:1]
+r8 = [f for f in glob.glob('/verif/seeded/*/meta.json') if _round(f) == '8']
+r9 = [f for f in glob.glob('/verif/seeded/*/meta.json') if _round(f) == '9']
+m8 = sum(1 for f in r8 if json.load(open(f)).get('initially_missed'))
+m9 = sum(1 for f in r9 if json.load(open(f)).get('initially_missed'))
+rounds = 'nine' if r9 else 'eight'
+later = (f"Round 8 (a later session; two changes per property, the brief of this task only: property text and scratch worktree, "
+         f"no list of earlier changes; asked for changes that need an interleaving, a fault, a multi-step history, an unusual input or two "
+         f"cooperating sites): {m8} of {len(r8)} missed at first. ")
+if r9:
+    later += (f"Round 9 (one change for each of the ten properties with the most misses so far, told the titles of the earlier changes "
+              f"for that property to keep away from): {m9} of {len(r9)} missed at first. ")
 text = f'''<!-- SEEDED-BEGIN -->
 ## 13. Seeded breaking changes and the checks that catch them
 
 {n} changes to jig/lisp were written by fresh sub-agents that saw only the text of one property and a
-scratch worktree (nothing from /verif), in seven rounds. Rounds 2–4 were told what earlier rounds had produced so as
+scratch worktree (nothing from /verif), in {rounds} rounds. Rounds 2–4 were told what earlier rounds had produced so as
 not to repeat it; round 3 was asked for changes needing a conjunction of rare conditions; in round 4 the agents for
 the sequential properties (C01–C06, C12–C20) were additionally told, in prose, which workload families the checks
 already generate and asked to aim outside them (an adversarial round: it can only lower the detection rate; the
@@ -17,7 +30,7 @@ agents for C07–C11 in that round got no such description); round 5 went back t
 worktree, the earlier changes for that property to keep away from) and asked for two subtle changes per property:
 18 of its 40 were missed by the checks as they stood, and 20 of the 40 of round 6 (same brief, told to keep away from
 everything earlier): the plain brief finds more gaps than the adversarial one did. Round 7 (one change per property, same brief): 11 of 20
-missed at first, one of them (C17-m11) outside its statement. Every change compiles, passes the 48 baseline tests and comes with a demonstration that
+missed at first, one of them (C17-m11) outside its statement. {later}Every change compiles, passes the 48 baseline tests and comes with a demonstration that
 fails with it and passes without; each was confirmed with `bin/seedverify.sh` in a scratch worktree, then the
 property's check was run against a scratch worktree with the change applied (`bin/seedrun.sh`, /repo untouched).
 `seeded/<id>/` holds patch.diff, demo_test.go, meta.json (what it breaks, what it needs to manifest, how to run the
